@@ -1,8 +1,18 @@
+#[cfg(not(sonic_rs_verif))]
 use std::{
     fmt::{self, Debug, Display},
     str::from_utf8_unchecked,
     sync::atomic::{AtomicPtr, Ordering},
 };
+#[cfg(sonic_rs_verif)]
+use std::{
+    fmt::{self, Debug, Display},
+    str::from_utf8_unchecked,
+    sync::atomic::Ordering,
+};
+
+#[cfg(sonic_rs_verif)]
+use crate::util::verif_sync::AtomicPtr;
 
 use faststr::FastStr;
 use ref_cast::RefCast;
